@@ -32,6 +32,7 @@ MANIFEST = {
     "note": "Trusted: vlib/render.py produces conformant files for the subset of the CTfile spec the reader claims (no query atoms, no quoted strings with blanks, header lines printable ASCII not starting with 'M  ').",
     "technique": "property-based model-based testing with an independent V3000 renderer (Hypothesis, 16 shards) + Atheris in the thorough tier",
 }
+FUZZ = {"procs": 12, "runs": 20000, "timeout": 3000}
 ASSUMPTIONS = ["renderer output is spec-conformant for the reader's claimed subset", "str.splitlines-only separators (FF, NEL, LS) are not placed in headers"]
 
 
@@ -84,15 +85,21 @@ def check(case, stats):
     stats.evaluated()
     compare(g, model, "read")
     if case.get("via_file"):
-        d = os.path.join(ROOT, ".work")
+        # one path per worker process, overwritten for every case: what is returned must be
+        # what the file contains NOW (a reader remembering earlier content would show)
+        d = os.path.join(ROOT, ".work", f"c07_{os.getpid()}")
         os.makedirs(d, exist_ok=True)
-        fd, path = tempfile.mkstemp(suffix=".mol", dir=d)
+        path = os.path.join(d, "current.mol")
+        with open(path, "w", newline="") as fh:
+            fh.write(text)
         try:
-            with os.fdopen(fd, "w", newline="") as fh:
-                fh.write(text)
             gf = call("read-file", graph_from_file, path)
         finally:
             os.unlink(path)
+            try:
+                os.rmdir(d)
+            except OSError:
+                pass
         compare(gf, model, "read-file")
         stats.label("via_graph_from_file")
     # explicit defaults / spelling must not leak into the identifier
